@@ -36,6 +36,7 @@ type baseSpec struct {
 	mod     *rsaMod
 	expName string
 	enc     rsaEnc
+	window  *[2]uint32 // inception, expiration; nil: random (time is only signed octets below VerifyRRSIG)
 }
 
 func cloneKey(k *dns.DNSKEY) *dns.DNSKEY { c := *k; return &c }
@@ -145,6 +146,9 @@ func (w *world) makeBase(rng *rand.Rand, spec baseSpec) (*base, error) {
 	sig := &dns.RRSIG{Algorithm: spec.alg, OrigTtl: origTTL, Expiration: rng.Uint32(), Inception: rng.Uint32(),
 		KeyTag: tag, SignerName: signerName}
 	sig.Hdr.Ttl = ttl
+	if spec.window != nil {
+		sig.Inception, sig.Expiration = spec.window[0], spec.window[1]
+	}
 
 	// wildcard expansion: sign under "*.<suffix>", present under the full owner
 	signRRs := rrs
@@ -659,7 +663,7 @@ func (w *world) verifySpec(unit int, rng *rand.Rand) baseSpec {
 	nExp := len(mods[0].Exps)
 	m := mods[i%len(mods)]
 	x := m.Exps[(i/len(mods))%nExp]
-	alg := rsaAlgs[(i/3)%4]
+	alg := rsaAlgs[(i+i/len(mods)+i/(len(mods)*nExp))%4]
 	enc := encCanonical
 	switch rng.IntN(8) {
 	case 0:
